@@ -27,6 +27,15 @@ def key_layout(ctx):
             fields[p['src']] = p
     fold = layout.fold_schedule(fn, layout.fold_counter(fn, acc) or 'exp')
     pn = [p['name'] for p in fn.params]
+    if fold['init'] is None:
+        # no separate counter: the shift is written as 8 * (N - position)
+        import re
+        for p in pl:
+            m = re.match(r'^\(#8 \* \(#(\d+) - \w+\)\)$', str(p['shift']))
+            if m:
+                fold['init'] = int(m.group(1))
+    if fold['init'] is None:
+        raise AnalysisBroken('C15: ID byte fold schedule of createAnswerKey not recognised')
     try:
         lay = {
             'len': fields[pn[5]]['shift'],
@@ -104,7 +113,7 @@ def r2(ctx):
     ctx.rule('C15.R2', 'the masks used to shorten / generalise the lookup key in getAnswer (source wildcard, length field, '
              'ID byte to drop, new length) and the destination extraction in hasAnswer address exactly the bit fields '
              'createAnswerKey builds (length at bit 61, source number 5 bits at 56, destination byte at 48, ID byte p at '
-             '8*(3-p))', minimum=4, star=True)
+             '8*(3-p))', minimum=5, star=True)
     fb = ctx.fb
     kfn, pl, fold, lay = key_layout(ctx)
     ga = fb.fn('ebusd::DirectProtocolHandler::getAnswer')
@@ -198,6 +207,11 @@ def r2(ctx):
     order = sorted([(lay['sb'], 'sb'), (lay['pb'], 'pb'), (lay['dst'], 'dst'), (lay['src'], 'src'), (lay['len'], 'len')])
     ok = [o[0] for o in order] == [32, 40, 48, 56, 61]
     ctx.ob('C15.R2', kfn, kfn.body, ok, 'field placement of createAnswerKey', 'placements %s' % order)
+    # every field is widened to the key type before it is shifted: a shift evaluated in int loses the bits above 31 and,
+    # when bit 31 is reached, sign-extends over the length/source/destination/PBSB fields when OR-ed into the key
+    narrow = [(p['src'], p['shift'], p['shiftw']) for p in pl if p.get('shiftw') is not None and p['shiftw'] < 64]
+    ctx.ob('C15.R2', kfn, kfn.body, not narrow, 'key fields shifted in 64 bit',
+           'shifts evaluated in a narrower type: %s' % narrow if narrow else 'all %d shifted fields are widened first' % len([p for p in pl if p.get('shiftw')]))
 
 
 def r3(ctx):
